@@ -21,12 +21,14 @@ MANIFEST = {
             "over {match prefix, extend, widen}.",
     "note": "Trusted: mc/refmodel.py replay model (validated on 1e7 design-time runs and by a perturbation test), mc/refgeom.py. Witness "
             "points of non-unique segment-segment minima are taken from the implementation after validating that they realise the "
-            "minimum. Known finding D14 (stale child score after widening) is recognised only by its exact predicate.",
+            "minimum. Known findings D14 (stale child score after widening) and D22 (stale successor scores after continue_with_distance improved "
+            "an entry in place; evaluated with a harness-side probe around continue_with_distance and a replay that re-synchronises after "
+            "each mismatch) are recognised only by their exact predicates.",
     "technique": "bounded-exhaustive enumeration of inputs x configurations and of operation histories, replay of the implementation's path in a reference model",
 }
 MANIFEST["text"] += " " + (
     'Added after the seeding waves: the geometry fields of path states (edge_m.pi, edge_o.pi, dist_obs) are judged here too; a matcher object re-used for another trace (operation N); the recorded input of known finding D14 is part of every run; jump histories match / continue_with_distance / extend with a finite max_dist on the named graphs (a jump is a not-connected transition of the documented model).')
-BUDGET = {"quick": 420, "thorough": 3000}
+BUDGET = {"quick": 900, "thorough": 3000}
 RULE = ("cases = (graph) for one-shot runs and (graph) for histories; states = path states re-scored, transitions = path steps "
         "re-scored, traces validated = best paths replayed in the model; non-trivial = the path contains a non-emitting state, a "
         "going-back / not-connected penalty, or was produced after a widening/extension; outcomes = (index, path shape).")
